@@ -44,6 +44,9 @@ fn run(c: &Case, m: &Model, interrupts: &[u16], fault: Option<(u32, EK)>) -> Tra
 
 impl Prop for Faults {
     type Case = Case;
+    fn input_bytes<'a>(&self, c: &'a mut Self::Case) -> Option<&'a mut Vec<u8>> {
+        Some(&mut c.input.0)
+    }
     fn strategy(&self, _tier: Tier) -> BoxedStrategy<Case> {
         let per = |f: Format| {
             let input = match f {
